@@ -116,15 +116,21 @@ func (g *Gen) taint(r *R, acc []Token, inMulti bool) []Token {
 		case 0:
 			return t + s
 		case 1:
-			return s + t
+			if !insidePrintfDirective(s, len(s)) {
+				return s + t
+			}
+			return t + s
 		}
-		// in the middle, at a rune boundary that is not inside a printf verb
+		// in the middle, at a rune boundary that is not inside a printf directive
 		for k := len(s) / 2; k < len(s); k++ {
-			if k > 0 && s[k-1] != '%' && (s[k]&0xC0) != 0x80 {
+			if k > 0 && !insidePrintfDirective(s, k) && (s[k]&0xC0) != 0x80 {
 				return s[:k] + t + s[k:]
 			}
 		}
-		return s + t
+		if !insidePrintfDirective(s, len(s)) {
+			return s + t
+		}
+		return t + s
 	}
 	for i := range r.In {
 		if r.Op == "hop" {
@@ -358,4 +364,22 @@ func oracleC12(res *Result, c *Case) {
 			}
 		}
 	}
+}
+
+// insidePrintfDirective: would text inserted at position k of a format string become part of a
+// printf directive (an unescaped '%' followed only by flags, width, precision, argument index)?
+func insidePrintfDirective(s string, k int) bool {
+	j := k - 1
+	for j >= 0 && strings.IndexByte("+-# 0123456789.*[]", s[j]) >= 0 {
+		j--
+	}
+	if j < 0 || s[j] != '%' {
+		return false
+	}
+	n := 0
+	for j >= 0 && s[j] == '%' {
+		n++
+		j--
+	}
+	return n%2 == 1
 }
